@@ -452,4 +452,303 @@ theorem walk_kidsM (R : RParser) (D : ToDom) : ∀ (kids : List Node) (w : WStat
 end
 
 
+/-! ### the serializer side with marks -/
+
+theorem annotate_marks_nilM (S : Schema) (D : ToDom) (univ : List Mark) (k : Node) (h : k.marks = []) :
+    ∃ spec akids, annotate S D univ k = .mk [] spec akids := by
+  cases k with
+  | text s m =>
+    have : m = [] := h
+    subst this; exact ⟨_, _, by rw [annotate]; rfl⟩
+  | leaf t a m =>
+    have : m = [] := h
+    subst this; exact ⟨_, _, by rw [annotate]; rfl⟩
+  | elem t a m kids =>
+    have : m = [] := h
+    subst this; exact ⟨_, _, by rw [annotate]; rfl⟩
+
+/-- without marks `serialize_fragment` emits the nodes one after the other -/
+theorem serFrag_nomarksM (S : Schema) (D : ToDom) (univ : List Mark) : ∀ (kids : List Node) (cur : List Html),
+    kids.all (fun k => k.marks.isEmpty) = true → serFrag (annotateList S D univ kids) [] cur = cur ++ kids.map (htmlOf S D univ)
+  | [], cur, _ => by simp [annotateList, serFrag, closeFrames]
+  | k :: ks, cur, h => by
+    simp only [List.all_cons, Bool.and_eq_true] at h
+    obtain ⟨spec, akids, ha⟩ := annotate_marks_nilM S D univ k (by simpa using h.1)
+    rw [annotateList, ha, serFrag.eq_2]
+    rw [serFrag.keepCount.eq_3 _ _ (by simp) (by simp)]
+    simp only [List.length_nil, Nat.sub_self, closeFrames, List.foldl_nil]
+    rw [serFrag_nomarksM S D univ ks _ h.2]
+    simp [htmlOf, ha]
+
+
+
+theorem domOfM_not_text (R : RParser) (D : ToDom) (k : Node) (hk : k.isText = false) (v : List Nat) : domOfM R D k ≠ .text (some v) := by
+  cases k with
+  | text s m => simp [Node.isText] at hk
+  | leaf t a m => rw [domOfM]; split <;> simp [elemDom]
+  | elem t a m kids => rw [domOfM]; split <;> simp [elemDom]
+
+theorem kids_ser_hyps (R : RParser) (D : ToDom) (univ : List Mark) (opts : Opts) (pt : TypeId) : ∀ (kids : List Node)
+    (prev : Option (Node × String)), kids.all Node.isLeaf = true → kidsOk R D opts pt prev kids = true →
+    (∀ m ∈ marksOfList kids, m ∈ univ) →
+    (∀ n ∈ kids, LeafSer R D n) ∧ (∀ n ∈ kids, InlOk R.P.S D univ n)
+  | [], _, _, _, _ => ⟨(fun n hn => by cases hn), (fun n hn => by cases hn)⟩
+  | k :: ks, prev, hfl, hok, hun => by
+    simp only [List.all_cons, Bool.and_eq_true] at hfl
+    unfold kidsOk at hok
+    simp only [Bool.and_eq_true] at hok
+    obtain ⟨⟨htx, hnk⟩, hoks⟩ := hok
+    have hun1 : ∀ m ∈ marksOf k, m ∈ univ := fun m hm => hun m (by rw [marksOfList]; exact List.mem_append_left _ hm)
+    obtain ⟨ih1, ih2⟩ := kids_ser_hyps R D univ opts pt ks _ hfl.2 hoks
+      (fun m hm => hun m (by rw [marksOfList]; exact List.mem_append_right _ hm))
+    have hmr := nodeOk_markRule R D opts pt k hfl.1 hnk
+    have hmok : ∀ m ∈ k.marks, MOk D univ m := by
+      intro m hm
+      obtain ⟨name, sattrs, r, ra, hd, hsp, _⟩ := markRule_spec R D m (hmr m hm)
+      refine ⟨⟨name, sattrs, hd⟩, hsp, hun1 m ?_⟩
+      cases k with
+      | text s ms => exact hm
+      | leaf t a ms => exact hm
+      | elem t a ms kk => simp [Node.isLeaf] at hfl
+    have hk1 : LeafSer R D k := by
+      refine ⟨hfl.1, ?_, ?_, hmr⟩
+      · intro s ms he
+        subst he
+        simp only at htx
+        unfold textOk at htx
+        simp only [Bool.and_eq_true, Bool.not_eq_true'] at htx
+        exact htx.1
+      · intro t a ms he
+        subst he
+        rw [nodeOk] at hnk
+        simp only [Bool.and_eq_true] at hnk
+        cases hl : leafRule R D t a with
+        | none => rw [hl] at hnk; simp at hnk
+        | some tag =>
+          obtain ⟨name, sattrs, pw, hd, _, _⟩ := leafRule_cases R D t a tag hl
+          exact ⟨name, sattrs, hd⟩
+    have hk2 : InlOk R.P.S D univ k := by
+      refine ⟨?_, hmok⟩
+      cases k with
+      | text s ms => trivial
+      | leaf t a ms =>
+        rw [nodeOk] at hnk
+        simp only [Bool.and_eq_true, Bool.or_eq_true, List.isEmpty_iff] at hnk
+        exact hnk.1.2
+      | elem t a ms kk => simp [Node.isLeaf] at hfl
+    refine ⟨fun n hn => ?_, fun n hn => ?_⟩
+    · rcases List.mem_cons.1 hn with rfl | hn
+      · exact hk1
+      · exact ih1 n hn
+    · rcases List.mem_cons.1 hn with rfl | hn
+      · exact hk2
+      · exact ih2 n hn
+
+mutual
+theorem ser_dom_nodeM (R : RParser) (D : ToDom) (univ : List Mark) : ∀ (k : Node) (opts : Opts) (pt : TypeId),
+    k.isText = false → k.marks = [] → (∀ m ∈ marksOf k, m ∈ univ) → nodeOk R D opts pt k = true → k.norm = true →
+    ∃ name attrs hk, htmlOf R.P.S D univ k = .el name attrs hk ∧ toDom R.sel (.el name attrs hk) = domOfM R D k
+  | .text s m, _, _, ht, _, _, _, _ => by simp [Node.isText] at ht
+  | .leaf t a m, opts, pt, _, hnm, _, hok, _ => by
+    have hm0 : m = [] := hnm
+    subst hm0
+    rw [nodeOk] at hok
+    simp only [Bool.and_eq_true] at hok
+    cases hl : leafRule R D t a with
+    | none => rw [hl] at hok; simp at hok
+    | some tag =>
+      obtain ⟨name, sattrs, pw, hd, _, _⟩ := leafRule_cases R D t a tag hl
+      refine ⟨name, rAttrs sattrs, [], ?_, ?_⟩
+      · simp only [htmlOf, annotate, hd, serNode, renderSpec, renderSpecs, rAttrs]
+      · simp only [toDom, toDomList, domOfM, hd, elemDom, renderedAttrs, ite_self, rAttrs]
+  | .elem t a m kids, opts, pt, _, hnm, hun, hok, hnorm => by
+    have hm0 : m = [] := hnm
+    have hunk : ∀ m ∈ marksOfList kids, m ∈ univ := fun m hm => hun m (by rw [marksOf]; exact List.mem_append_right _ hm)
+    subst hm0
+    rw [nodeOk] at hok
+    simp only [Bool.and_eq_true, Bool.not_eq_true'] at hok
+    obtain ⟨_, hrest⟩ := hok
+    rw [Node.norm] at hnorm
+    simp only [Bool.and_eq_true] at hnorm
+    cases her : elemRule R D t a with
+    | none => rw [her] at hrest; cases hrest
+    | some p =>
+      obtain ⟨tag, pw⟩ := p
+      rw [her] at hrest
+      simp only [Bool.and_eq_true] at hrest
+      obtain ⟨⟨⟨⟨⟨hko, _⟩, hflat⟩, _⟩, hmfl⟩, _⟩ := hrest
+      rcases elemRule_cases R D t a tag pw her with ⟨name, sattrs, hd, hsc, _, _⟩ |
+          ⟨name, sattrs, name2, sattrs2, hd, hsc, _, htr, _, _⟩
+      · by_cases hfl : kids.all Node.isLeaf = true
+        · have hbt := build_top kids
+          obtain ⟨hls, hinl⟩ := kids_ser_hyps R D univ _ t kids none hfl hko hunk
+          have hfill : serFrag (annotateList R.P.S D univ kids) [] [] = forestHtml R.P.S D univ (build kids [] []) := by
+            simpa [forestHtml] using serFrag_forest R.P.S D univ kids [] [] hinl (fun x hx => by cases hx)
+          have ihf := forest_toDom R D univ (build kids [] []) [] hbt.1 (by rw [hbt.2]; exact hnorm.2) (by rw [hbt.2]; exact hls)
+          refine ⟨name, rAttrs sattrs, forestHtml R.P.S D univ (build kids [] []), ?_, ?_⟩
+          · simp only [htmlOf, annotate, hd, serNode, renderSpec, hfill, rAttrs]
+          · simp only [toDom, hsc, Bool.false_eq_true, if_false, ihf, domOfM, hd, elemDom, renderedAttrs, rAttrs, hfl, if_true]
+        · have hdm : kids.all (fun k => k.marks.isEmpty) = true := by
+            simp only [Bool.or_eq_true] at hmfl
+            rcases hmfl with h | h
+            · exact absurd h hfl
+            · exact h
+          have hfill : serFrag (annotateList R.P.S D univ kids) [] [] = kids.map (htmlOf R.P.S D univ) := by
+            rw [serFrag_nomarksM R.P.S D univ kids [] hdm]; rfl
+          have ih := ser_dom_listM R D univ kids _ t none hdm hunk hko hnorm.1 hnorm.2
+          refine ⟨name, rAttrs sattrs, kids.map (htmlOf R.P.S D univ), ?_, ?_⟩
+          · simp only [htmlOf, annotate, hd, serNode, renderSpec, hfill, rAttrs]
+          · simp only [toDom, hsc, Bool.false_eq_true, if_false, ih, domOfM, hd, elemDom, renderedAttrs, rAttrs, hfl]
+      · obtain ⟨_, hsc2, _, _, _⟩ := transparent_cases R t name2 sattrs2 htr
+        have hdm : kids.all (fun k => k.marks.isEmpty) = true := by
+          simp only [Bool.or_eq_true, Bool.and_eq_true, Bool.not_eq_true'] at hflat
+          rcases hflat with h | h
+          · simp [isWrapper, hd] at h
+          · exact h.2
+        have hfill : serFrag (annotateList R.P.S D univ kids) [] [] = kids.map (htmlOf R.P.S D univ) := by
+          rw [serFrag_nomarksM R.P.S D univ kids [] hdm]; rfl
+        have ih := ser_dom_listM R D univ kids _ t none hdm hunk hko hnorm.1 hnorm.2
+        refine ⟨name, rAttrs sattrs, [.el name2 (rAttrs sattrs2) (kids.map (htmlOf R.P.S D univ))], ?_, ?_⟩
+        · simp only [htmlOf, annotate, hd, serNode, renderSpec, renderSpecs, hfill, rAttrs]
+        · simp only [toDom, toDomList, hsc, hsc2, Bool.false_eq_true, if_false, ih, domOfM, hd, elemDom, renderedAttrs, rAttrs]
+theorem ser_dom_listM (R : RParser) (D : ToDom) (univ : List Mark) : ∀ (kids : List Node) (opts : Opts) (pt : TypeId)
+    (prev : Option (Node × String)),
+    kids.all (fun k => k.marks.isEmpty) = true → (∀ m ∈ marksOfList kids, m ∈ univ) → kidsOk R D opts pt prev kids = true →
+    fnormKids kids = true → chainOk kids = true →
+    toDomList R.sel (kids.map (htmlOf R.P.S D univ)) = domOfListM R D kids
+  | [], _, _, _, _, _, _, _, _ => by simp [toDomList, domOfListM]
+  | k :: ks, opts, pt, prev, hnm, hun, hok, hfn, hch => by
+    unfold kidsOk at hok
+    simp only [Bool.and_eq_true] at hok
+    obtain ⟨⟨htx, hnk⟩, hoks⟩ := hok
+    simp only [List.all_cons, Bool.and_eq_true] at hnm
+    have hun1 : ∀ m ∈ marksOf k, m ∈ univ := fun m hm => hun m (by rw [marksOfList]; exact List.mem_append_left _ hm)
+    have hun2 : ∀ m ∈ marksOfList ks, m ∈ univ := fun m hm => hun m (by rw [marksOfList]; exact List.mem_append_right _ hm)
+    rw [fnormKids] at hfn
+    simp only [Bool.and_eq_true] at hfn
+    have hch2 : chainOk ks = true := by
+      cases ks with
+      | nil => rfl
+      | cons k2 ks2 => rw [chainOk] at hch; simp only [Bool.and_eq_true] at hch; exact hch.2
+    have ih := ser_dom_listM R D univ ks opts pt _ hnm.2 hun2 hoks hfn.2 hch2
+    cases k with
+    | text s m =>
+      have hm0 : m = [] := by simpa [Node.marks] using hnm.1
+      subst hm0
+      simp only at htx
+      unfold textOk at htx
+      simp only [Bool.and_eq_true, Bool.not_eq_true'] at htx
+      have hhtml : htmlOf R.P.S D univ (.text s []) = .text (escape (charsOfUnits s)) := by
+        simp only [htmlOf, annotate, serNode, renderSpec]
+      rw [List.map_cons, hhtml, toDomList, ih, unitsOk_text s htx.1.1, domOfListM, domOfM]
+      apply consText_elem s htx.1.2
+      intro v r he
+      cases ks with
+      | nil => simp [domOfListM] at he
+      | cons k2 ks2 =>
+        rw [domOfListM] at he
+        simp only [List.cons.injEq] at he
+        have hk2 : k2.isText = false := by
+          rw [chainOk] at hch
+          simp only [Bool.and_eq_true] at hch
+          cases k2 with
+          | text s2 m2 =>
+            have hm2 : m2 = [] := by
+              have := hnm.2
+              simp only [List.all_cons, Bool.and_eq_true] at this
+              simpa [Node.marks] using this.1
+            subst hm2
+            simp [adjOk] at hch
+          | leaf => rfl
+          | elem => rfl
+        exact domOfM_not_text R D k2 hk2 v he.1
+    | leaf t a m =>
+      obtain ⟨name, attrs, hk, hh, hd⟩ := ser_dom_nodeM R D univ (.leaf t a m) opts pt rfl (by simpa using hnm.1) hun1 hnk hfn.1
+      rw [List.map_cons, hh, toDomList, ih, hd, domOfListM]
+    | elem t a m kids =>
+      obtain ⟨name, attrs, hk, hh, hd⟩ := ser_dom_nodeM R D univ (.elem t a m kids) opts pt rfl (by simpa using hnm.1) hun1 hnk hfn.1
+      rw [List.map_cons, hh, toDomList, ih, hd, domOfListM]
+end
+
+
+/-! ### the whole round trip -/
+
+/-- **the walk over the canonical DOM of a document rebuilds the document** -/
+theorem parse_canonicalM (R : RParser) (D : ToDom) (doc : Node) (h : rtOk R D doc = true)
+    (rootTag : String) : parse R.P rootTag (domOfListM R D doc.kids) = .ok doc := by
+  unfold rtOk at h
+  simp only [Bool.and_eq_true] at h
+  obtain ⟨⟨⟨_, hck⟩, hnorm⟩, hdoc⟩ := h
+  cases doc with
+  | text s m => cases hdoc
+  | leaf t a m => cases hdoc
+  | elem t a ms kids =>
+    simp only [Bool.and_eq_true, beq_iff_eq, Bool.not_eq_true', List.isEmpty_iff] at hdoc
+    obtain ⟨⟨⟨⟨⟨⟨ht, hms⟩, hnl⟩, hat⟩, hko⟩, hlo⟩, hdm⟩ := hdoc
+    subst ht hms
+    rw [Schema.checkNode] at hck
+    simp only [Bool.and_eq_true] at hck
+    obtain ⟨⟨hvc, _⟩, hckk⟩ := hck
+    unfold Schema.validContent at hvc
+    simp only [Bool.and_eq_true] at hvc
+    obtain ⟨qe, hrun, hve⟩ := accepts_run _ _ hvc.1
+    rw [Node.norm] at hnorm
+    have hfn : fnorm kids = true := hnorm
+    simp only [Bool.and_eq_true] at hnorm
+    have hi0 : Inv R.P.S (walkInit R.P false .unset) [] (NodeCtx.new (some R.P.S.top) none [] [] true {}) [] [] :=
+      ⟨rfl, rfl, settles_nil _ _, (fun x hx => by cases hx), (by show 0 < 1; omega)⟩
+    have hp0 : Plain R.P.S (NodeCtx.new (some R.P.S.top) none [] [] true {}) R.P.S.top 0 :=
+      ⟨rfl, rfl, rfl, (fun m hm => by cases hm), rfl, rfl, rfl⟩
+    obtain ⟨w, cx', ext', hall, hi, hp, hrel, _⟩ := walk_kidsM R D kids (walkInit R.P false .unset) [] _ [] [] R.P.S.top 0 qe {} none
+      false rootTag hi0 hp0 (.inl rfl) rfl hko hdm hckk hnorm.1 hrun prevOk_init
+    simp only [List.nil_append] at hi
+    have hflags : flags w.st = flags (PState.init R.P.S false .unset false) := by
+      have hrep := addAll_replays R.P (fun _ => true) rootTag (domOfListM R D kids) (PState.init R.P.S false .unset false)
+        R.P.S.marks.size (listOk_lax _) w hall
+      exact run_flags R.P.S R.P.wsPre _ _ _ hrep.1
+    have hio : w.st.isOpen = false := congrArg Prod.fst hflags
+    have hto : w.st.topOpen = false := congrArg Prod.snd hflags
+    have hce := closeExtra_settles R.P.S { w.st with open_ := 0 } [] cx' kids ext' hi.nodes rfl hi.settles
+    have hfin : ({ cx' with content := kids } : NodeCtx).finishNode R.P.S false R.P.S.top = .ok (.elem R.P.S.top a [] kids) := by
+      refine finishNode_plain R.P.S ({ cx' with content := kids } : NodeCtx) R.P.S.top qe a hp.mtch hp.ty hve ?_ hp.marks hnl ?_ hfn
+      · show computeAttrs _ (cx'.attrs.getD []) = _
+        rw [hrel]; exact attrsEq_ok _ _ hat
+      · show lastOk cx'.opts kids = true
+        rw [hrel]; exact hlo
+    unfold parse parseW
+    simp only [Node.kids, hall]
+    have hce' : ({ w.st with open_ := 0 } : PState).closeExtra R.P.S w.st.isOpen =
+        .ok { ({ w.st with open_ := 0 } : PState) with nodes := [] ++ [{ cx' with content := kids }] } := by
+      rw [hio]; exact hce
+    unfold PState.finish
+    simp only [hce', List.nil_append, List.head?_cons, hp.ty]
+    have hfin2 := hfin
+    simp only [hp.ty] at hfin2
+    simp only [hio, hto, Bool.or_self, hfin2, Except.map]
+
+
+theorem mem_marksOf_kids (t : TypeId) (a : Attrs) (ms : Marks) (kids : List Node) (m : Mark) (h : m ∈ marksOfList kids) :
+    m ∈ marksOf (.elem t a ms kids) := by
+  rw [marksOf]; exact List.mem_append_right _ h
+
+/-- **export then import is the identity** -/
+theorem roundtrip_core (R : RParser) (D : ToDom) (doc : Node) (h : rtOk R D doc = true) : roundTrip R D doc = .ok doc := by
+  have h0 := h
+  unfold rtOk at h
+  simp only [Bool.and_eq_true] at h
+  obtain ⟨⟨_, hnorm⟩, hdoc⟩ := h
+  cases doc with
+  | text s m => cases hdoc
+  | leaf t a m => cases hdoc
+  | elem t a ms kids =>
+    simp only [Bool.and_eq_true] at hdoc
+    obtain ⟨⟨⟨_, hko⟩, _⟩, hdm⟩ := hdoc
+    rw [Node.norm] at hnorm
+    simp only [Bool.and_eq_true] at hnorm
+    unfold roundTrip serializeDoc
+    simp only [Node.kids]
+    rw [serFrag_nomarksM R.P.S D _ kids [] hdm, List.nil_append,
+      ser_dom_listM R D _ kids {} t none hdm (fun m hm => mem_marksOf_kids t a ms kids m hm) hko hnorm.1 hnorm.2]
+    exact parse_canonicalM R D (.elem t a ms kids) h0 _
+
 end PM.RoundTrip
